@@ -447,4 +447,12 @@ Definition step (s : st) (o e : line) : st * outline :=
   | _ => (s, ([-2], []))
   end.
 
-Definition run (ops : list opline) : list outline := run_case step [] ops.
+(* = run_case step [] ops (CqProofs.run_is_run_case), written with an accumulator: the enumeration scripts of C08 have
+   several hundred thousand operations per case and the runner must not recurse that deep *)
+Fixpoint run_acc (s : st) (ops : list opline) (acc : list outline) : list outline :=
+  match ops with
+  | [] => rev_append acc []
+  | (o, e) :: r => let '(s', out) := step s o e in run_acc s' r (out :: acc)
+  end.
+
+Definition run (ops : list opline) : list outline := run_acc [] ops [].
